@@ -173,6 +173,7 @@ theorem parseCellBody_emit (size : Nat) (_hs1 : 1 ≤ size) (hs4 : size ≤ 4) (
     congr 1
     exact List.take_left
   apply ret_bind (ret_makeSlice _ _ (by omega))
+  apply ret_bind (ret_alloc _)
   apply ret_bind (a := r.bits)
   · exact ret_lift (setTopUpped_toppedUp r.bits)
   apply ret_ite_neg
